@@ -16,6 +16,9 @@ import (
 	"golang.org/x/tools/go/ssa"
 )
 
+// FallbackSolver is consulted when the primary solver answers unknown.
+var FallbackSolver = []string{"cvc5", "--incremental", "--solve-bv-as-int=sum", "--tlimit=120000"}
+
 type runStats struct {
 	paths, decisions, forks int
 	assertsChecked          int
@@ -71,6 +74,7 @@ func newInterpreter(p *Program, solverArgv []string, timeoutMs int) *interpreter
 	i.rtypeMethods = methodSet{}
 	i.errorMethods = methodSet{}
 	i.solver = newSolver(i.tt, solverArgv, timeoutMs)
+	i.solver.fallbackArgv = FallbackSolver
 	i.path = &pathState{nondetSeq: map[string]int{}, held: map[*value]int{}, reached: map[string]bool{}}
 	return i
 }
